@@ -149,7 +149,9 @@ class Scn:
             builtins._xv_draw_a = builtins._xv_draw_b = 100
             crop.sow_samples(self.nsamples, verbosity=0)
         else:
-            crop.sow_combos(self.combos, verbosity=0)
+            # (one scenario sows in a shuffled order)
+            crop.sow_combos(self.combos, verbosity=0,
+                            shuffle=3 if self.name == "raw-nb4" else False)
 
     def seed_earlier(self, d, far=None):
         far = far if far is not None else self.farmer(d)
